@@ -192,7 +192,12 @@ pub fn decode_history(data: &[u8]) -> History {
     if over % 5 == 1 {
         feed.sched.overreport = Some((1 + (over / 5) as u32 % 5, (over / 25) as u32));
     }
-    History { data, feed, ops }
+    History {
+        data,
+        feed,
+        ops,
+        consumed_before: (over / 7) as usize % 9,
+    }
 }
 
 /// writer_ops target: [sink tail][nsteps][steps: 2 bytes each][seed][ops: 4 bytes each]
